@@ -1,375 +1,188 @@
-(* Invariant proof, part 7: the critical sections (wake-up pass, Lock, UnLock, cancelWaitLock, doTimeOut, doExpried). *)
+(* Invariant proof, part 8: LockDB.Lock. *)
 From Coq Require Import String ZifyN ZifyBool ZifyNat Permutation.
 From Slock Require Import Engine.Types Engine.Queues Engine.Timers Engine.Engine Engine.Engine2 Engine.InvDef Engine.InvBase
-  Engine.InvPrims Engine.InvRec Engine.InvWheel Engine.InvQueue Engine.InvQueue2.
+  Engine.InvPrims Engine.InvRec Engine.InvWheel Engine.InvQueue Engine.InvQueue2 Engine.InvSteps Engine.InvLockDefs.
 Open Scope N_scope.
 
-(* the ghost of a critical section on key k at rest (sweepers may hold references) *)
-Definition gk (xt xe : list ref) (k : N) : ghost := mkGhost xt xe [] [] [] [] k false false 0 0 0.
+Definition res_ok (xt xe : list ref) (k : N) (res : db * list event * option wake) : Prop :=
+  GInv (fst (fst res)) (gk xt xe k) /\ (forall w, snd res = Some w -> w_key w = k).
 
-Lemma gk_rekey s xt xe k k' : GInv s (gk xt xe k) -> GInv s (gk xt xe k').
-Proof. intros G. apply (ginv_set_dk s (gk xt xe k) k' G); reflexivity. Qed.
-Lemma inv_gk s k : Inv s -> GInv s (gk [] [] k).
-Proof. intros G. apply (ginv_set_dk s g0 k G); reflexivity. Qed.
-Lemma gk_inv s k : GInv s (gk [] [] k) -> Inv s.
-Proof. intros G. apply (ginv_set_dk s (gk [] [] k) 0 G); reflexivity. Qed.
+Lemma res_ok_same s ev xt xe k : GInv s (gk xt xe k) -> res_ok xt xe k (s, ev, None).
+Proof. intros G. split; [exact G|intros w H; discriminate]. Qed.
 
-(* a granter / new waiter borrows a sweeper slot for the record it is about to put on a wheel *)
-Lemma ginv_borrow_e s g r l : GInv s g -> aget (store s) r = Some l -> ecount s g r = O -> l_timeouted l = true ->
-  GInv s (g <| g_xe := r :: g_xe g |> <| g_owe := r :: g_owe g |>).
+(* ---------------------------------------------------------------- the new lock record and what becomes of it *)
+Lemma ls_tail_ginv s xt xe conn c k waited m :
+  GInv s (gk xt xe k) -> cmd_core c -> aget (mgrs s) k = Some m -> next s < MAXREC ->
+  res_ok xt xe k (ls_tail s conn c k waited).
 Proof.
-  intros G Hr He Ht.
-  eapply (wheels_ginv s s g); eauto; gs; try apply G.
-  - intros r0 l0 H0. destruct (gi_rec _ _ G r0 l0 H0) as [A1 A2 A3 A4 A5 A6 A7 A8 A9 A10 A11].
-    unfold tcount, ecount in *. gs. rewrite !occ_cons.
-    destruct (r =? r0) eqn:E.
-    + apply N.eqb_eq in E; subst r0. assert (l0 = l) by congruence. subst l0.
-      repeat split; try lia; auto; try (intros; congruence).
-    + repeat split; try lia; auto; try (intros Hti; destruct (A6 Hti) as [_ [Q _]]; lia).
-  - intros r0 H0. pose proof (gi_str _ _ G r0 H0) as S. unfold tcount, ecount in *. gs. rewrite occ_cons.
-    destruct (r =? r0) eqn:E; [apply N.eqb_eq in E; congruence|lia].
-Qed.
-
-Lemma ginv_borrow_t s g r l : GInv s g -> aget (store s) r = Some l -> tcount s g r = O ->
-  GInv s (g <| g_xt := r :: g_xt g |> <| g_owe := r :: g_owe g |>).
-Proof.
-  intros G Hr He.
-  eapply (wheels_ginv s s g); eauto; gs; try apply G.
-  - intros r0 l0 H0. destruct (gi_rec _ _ G r0 l0 H0) as [A1 A2 A3 A4 A5 A6 A7 A8 A9 A10 A11].
-    unfold tcount, ecount in *. gs. rewrite !occ_cons.
-    destruct (r =? r0) eqn:E.
-    + apply N.eqb_eq in E; subst r0. assert (l0 = l) by congruence. subst l0.
-      repeat split; try lia; auto; try (intros Hti; destruct (A6 Hti) as [_ [Q _]]; lia).
-    + repeat split; try lia; auto; try (intros Hti; destruct (A6 Hti) as [_ [Q _]]; lia).
-  - intros r0 H0. pose proof (gi_str _ _ G r0 H0) as S. unfold tcount, ecount in *. gs. rewrite occ_cons.
-    destruct (r =? r0) eqn:E; [apply N.eqb_eq in E; congruence|lia].
-Qed.
-
-(* ---------------------------------------------------------------- wakeUpWaitLock (non-ack part) *)
-Definition wg_pre (s : db) (r : ref) : db :=
-  let l := getl s r in
-  let s := updl s r (fun l => l <| l_timeouted := true |>) in
-  if l_long l then remove_long_timeout s r else s.
-
-(* marking a live waiter as answered (timeouted := true) and taking it out of the long table *)
-Lemma wg_pre_ginv s xt xe k r l :
-  GInv s (gk xt xe k) -> aget (store s) r = Some l -> l_timeouted l = false ->
-  GInv (wg_pre s r) (gk xt xe k <| g_cw := (-1)%Z |>)
-  /\ exists l2, aget (store (wg_pre s r)) r = Some l2 /\ l_key l2 = l_key l /\ l_cmd l2 = l_cmd l /\ l_locked l2 = 0
-       /\ l_timeouted l2 = true /\ l_long l2 = false /\ l_conn l2 = l_conn l
-       /\ mgrs (wg_pre s r) = mgrs s /\ ewheel (wg_pre s r) = ewheel s /\ elong (wg_pre s r) = elong s
-       /\ cnt (wg_pre s r) = cnt s /\ next (wg_pre s r) = next s.
-Proof.
-  intros G Hr Ht. set (g := gk xt xe k) in *.
-  destruct (gi_rec _ _ G r l Hr) as [A1 A2 A3 A4 A5 A6 A7 A8 A9 A10 A11].
-  destruct (A6 Ht) as [Q1 [Q2 [Q3 Q4]]].
-  unfold wg_pre. rewrite (getl_some _ _ _ Hr), (updl_some _ _ _ _ Hr). cbv zeta.
-  set (l1 := l <| l_timeouted := true |>).
-  pose proof (ginv_pend_add s g r G) as G1.
-  assert (G2 : GInv (setl s r l1) (g <| g_pend := [r] |> <| g_cw := (-1)%Z |>)).
-  { eapply ginv_geq; [apply (setl_flags s _ r l l1 G1 Hr); auto; unfold g, gk; gs|].
-    - intros _ Hpe. rewrite occ_cons_eq in Hpe. discriminate.
-    - unfold g, gk. gs. unfold liveb. change (l_timeouted l1) with true. rewrite Ht. reflexivity. }
-  assert (Hr1 : aget (store (setl s r l1)) r = Some l1) by (rewrite store_setl, aget_aset_same; auto).
-  destruct (l_long l) eqn:Elong.
-  - assert (Hb : occ r (wheel_get (tlong s) (lkey (l_tT l))) = 1%nat) by (apply A8; auto).
-    assert (G3 : GInv (remove_long_timeout (setl s r l1) r) (g <| g_pend := [r] |> <| g_cw := (-1)%Z |>)).
-    { apply (remove_long_timeout_ginv _ _ r l1 G2 Hr1); unfold g, gk; gs; auto;
-        try (rewrite occ_cons_eq; lia); try (change (l_locked l1) with (l_locked l); lia). }
-    assert (Hs3 : exists q, remove_long_timeout (setl s r l1) r =
-              setl (setl s r l1 <| tlong := q |>) r (l1 <| l_long := false |> <| l_refc := dec8 (l_refc l1) |>)).
-    { unfold remove_long_timeout. rewrite (getl_some _ _ _ Hr1). change (tlong (setl s r l1)) with (tlong s). change (l_tT l1) with (l_tT l).
-      destruct (wheel_get_some (tlong s) (lkey (l_tT l)) r) as [q [Hq1 Hq2]]; [lia|]. rewrite Hq1.
-      eexists. unfold updl. cbn [store]. change (store (setl s r l1 <| tlong := _ |>)) with (store (setl s r l1)). rewrite Hr1. reflexivity. }
-    destruct Hs3 as [q Es3]. rewrite Es3 in *.
-    split.
-    + eapply ginv_geq; [apply (ginv_pend_drop _ _ r [] G3); gs; auto|].
-      * intros l0 H0 Hl0. rewrite store_setl, aget_aset_same in H0. inversion H0; subst l0. discriminate.
-      * reflexivity.
-    + eexists. split; [rewrite store_setl, aget_aset_same; reflexivity|]. repeat split; auto.
-  - split.
-    + eapply ginv_geq; [apply (ginv_pend_drop _ _ r [] G2); gs; auto|].
-      * intros l0 H0 Hl0. rewrite Hr1 in H0. inversion H0; subst l0. change (l_long l1) with (l_long l) in Hl0. congruence.
-      * reflexivity.
-    + exists l1. split; [exact Hr1|]. repeat split; auto.
-Qed.
-
-
-(* ---------------------------------------------------------------- granting a hold: AddLock; locked++; AddExpried; refCount++ *)
-Definition grant_core (s : db) (k : N) (r : ref) : db :=
-  let s := add_lock s k r in
-  let s := updm s k (fun m => m <| m_locked := add32 (m_locked m) 1 |>) in
-  let s := fst (add_expried s k r) in
-  updl s r (fun l => l <| l_refc := add8 (l_refc l) 1 |>).
-
-Lemma grant_core_ginv s g k r l m :
-  GInv s g -> g_dk g = k -> g_ph g = [] -> g_pre g = [] -> g_owe g = [] -> g_pend g = [] -> g_pw g = false -> g_lk g = false ->
-  g_dl g = 0%Z ->
-  aget (store s) r = Some l -> l_key l = k -> aget (mgrs s) k = Some m ->
-  l_locked l = 0 -> l_timeouted l = true -> l_long l = false -> occ r (holders m) = O -> ecount s g r = O ->
-  m_locked m + 1 < 4294967296 ->
-  GInv (grant_core s k r) (g <| g_cl := (g_cl g + 1)%Z |>).
-Proof.
-  intros G Hk Hp Hq Ho Hpe Hpw Hlk Hdl Hr Hkey Hm Hd Ht Hlg Hh He Hb.
-  unfold grant_core. cbv zeta.
-  destruct (add_lock_ginv s g k r l m G) as [G2 [[l3 [Hr3 [K3 [Cm3 [D3 [T3 [L3 Cn3]]]]]]] LF3]]; auto.
-  set (s2 := add_lock s k r) in *.
-  destruct (lf_m _ _ LF3 k) as [Mk [Ml _]].
-  change (getm (setl s r (al_rec s k l)) k) with (getm s k) in Ml. rewrite (getm_some _ _ _ Hm) in Ml.
-  destruct (aget (mgrs s2) k) as [m2|] eqn:Hm2;
-    [|exfalso; pose proof (proj1 Mk eq_refl) as X; change (mgrs (setl s r (al_rec s k l))) with (mgrs s) in X; congruence].
-  rewrite (getm_some _ _ _ Hm2) in Ml.
-  rewrite (updm_some _ _ _ _ Hm2).
-  set (m3 := m2 <| m_locked := add32 (m_locked m2) 1 |>).
-  assert (Hl3 : m_locked m3 = m_locked m2 + 1).
-  { unfold m3. change (m_locked (m2 <| m_locked := add32 (m_locked m2) 1 |>)) with (add32 (m_locked m2) 1). apply add32_succ. lia. }
-  assert (G3 : GInv (setm s2 k m3) (g <| g_cl := (g_cl g + 1)%Z |>)).
-  { eapply ginv_geq; [apply (setm_scalar s2 _ k m2 m3 G2 Hm2); try (destruct m2; reflexivity); [lia|right; gs; auto]|].
-    rewrite Hl3. gs.
-    match goal with |- _ = ?g0 <| g_dl := ?e1 |> <| g_cl := ?e2 |> =>
-      replace e1 with 0%Z by lia; replace e2 with (g_cl g + 1)%Z by lia end.
-    destruct g; gs; subst; reflexivity. }
-  set (s3 := setm s2 k m3) in *.
-  assert (Hr3' : aget (store s3) r = Some l3) by exact Hr3.
-  assert (He3 : ecount s3 (g <| g_cl := (g_cl g + 1)%Z |>) r = O).
-  { unfold ecount in *. gs. change (ewheel s3) with (ewheel s2). change (elong s3) with (elong s2).
-    rewrite (lf_ew _ _ LF3), (lf_el _ _ LF3). exact He. }
-  pose proof (ginv_borrow_e s3 _ r l3 G3 Hr3' He3 T3) as G4.
-  assert (G5 : GInv (fst (add_expried s3 k r)) (g <| g_cl := (g_cl g + 1)%Z |> <| g_owe := [r] |>)).
-  { eapply ginv_geq; [eapply (add_expried_ginv s3 _ k r _ l3 G4); gs; auto; reflexivity|].
-    gs. rewrite Ho. destruct g; reflexivity. }
-  destruct (aget (store (fst (add_expried s3 k r))) r) as [l4|] eqn:Hr4;
-    [|apply add_expried_stored in Hr4; congruence].
-  eapply ginv_geq; [apply (updl_refc_owe _ _ r [] l4 G5); gs; auto|].
-  destruct g; gs; subst; reflexivity.
-Qed.
-
-(* ---------------------------------------------------------------- wake_grant on a core command *)
-Definition wg_nohold (s : db) (k : N) (r : ref) (c : cmd) : db :=
-  if has_data_flag c then
-    let m := getm s k in
-    let req_aof := match m_cur m with Some cr => l_isaof (getl s cr) | None => false end
-                   || match m_data m with Some d => d_isaof d | None => false end in
-    let nowaof := match m_data (getm s k) with Some d => negb (d_isaof d) | None => false end in
-    if req_aof && nowaof then fst (push_lock_aof s k r 0) else s
-  else s.
-
-Lemma wake_grant_state s k r via : cmd_core (l_cmd (getl s r)) ->
-  fst (wake_grant s k r via) =
-  let c := l_cmd (getl s r) in
-  if 0 <? c_expried c
-  then bump (fun n => n <| n_lock := (n_lock n + 1)%Z |> <| n_locked := (n_locked n + 1)%Z |> <| n_wait := (n_wait n - 1)%Z |>)
-            (grant_core (wg_pre s r) k r)
-  else bump (fun n => n <| n_lock := (n_lock n + 1)%Z |> <| n_wait := (n_wait n - 1)%Z |>) (wg_nohold (wg_pre s r) k r c).
-Proof.
-  intros [C1 [C2 [C3 C4]]]. unfold wake_grant, grant_core, wg_nohold. cbv zeta. rewrite C1. cbn [andb].
-  change (if l_long (getl s r) then remove_long_timeout (updl s r (fun l0 => l0 <| l_timeouted := true |>)) r
-          else updl s r (fun l0 => l0 <| l_timeouted := true |>)) with (wg_pre s r).
-  set (s1 := wg_pre s r). set (c := l_cmd (getl s r)) in *.
-  destruct (0 <? c_expried c).
-  - rewrite C3. destruct (has_data_flag c); rewrite ?(process_data_core _ _ _ _ _ C4);
-      destruct (add_expried _ k r) as [s4 aev]; reflexivity.
-  - destruct (has_data_flag c); [|reflexivity]. rewrite (process_data_core _ _ _ _ _ C4).
-    destruct (_ && _); [|reflexivity]. destruct (push_lock_aof s1 k r 0); reflexivity.
-Qed.
-
-Lemma wake_grant_ginv s xt xe k r via l m :
-  GInv s (gk xt xe k) -> aget (store s) r = Some l -> l_key l = k -> l_timeouted l = false ->
-  aget (mgrs s) k = Some m -> m_locked m + 1 < 4294967296 ->
-  GInv (fst (wake_grant s k r via)) (gk xt xe k).
-Proof.
-  intros G Hr Hkey Ht Hm Hb.
-  destruct (gi_rec _ _ G r l Hr) as [A1 A2 A3 A4 A5 A6 A7 A8 A9 A10 A11].
-  destruct (A6 Ht) as [Q1 [Q2 [Q3 Q4]]]. rewrite Hkey, (getm_some _ _ _ Hm) in Q1, Q4.
-  destruct (wg_pre_ginv s xt xe k r l G Hr Ht) as [G1 [l2 [Hr2 [K2 [Cm2 [D2 [T2 [L2 [Cn2 [M2 [W2 [W2' [N2 X2]]]]]]]]]]]]].
-  rewrite wake_grant_state by (rewrite (getl_some _ _ _ Hr); exact A9). cbv zeta.
-  set (s1 := wg_pre s r) in *. set (g1 := gk xt xe k <| g_cw := (-1)%Z |>) in *.
-  assert (Hm1 : aget (mgrs s1) k = Some m) by (rewrite M2; auto).
-  assert (He1 : ecount s1 g1 r = O) by (unfold ecount, g1, gk in *; gs; rewrite W2, W2'; exact Q2).
-  destruct (0 <? c_expried (l_cmd (getl s r))).
-  - assert (G2 : GInv (grant_core s1 k r) (g1 <| g_cl := (g_cl g1 + 1)%Z |>)).
-    { apply (grant_core_ginv s1 g1 k r l2 m G1); unfold g1, gk; gs; auto; congruence. }
-    eapply ginv_geq; [apply (updc_ginv _ _ _ 0%Z 0%Z G2); unfold g1, gk; gs; cbn; lia|]. reflexivity.
-  - assert (G2 : GInv (wg_nohold s1 k r (l_cmd (getl s r))) g1).
-    { unfold wg_nohold. destruct (has_data_flag (l_cmd (getl s r))); auto. cbv zeta. destruct (_ && _); auto.
-      apply push_lock_aof_ok; auto. }
-    eapply ginv_geq; [apply (updc_ginv _ _ _ 0%Z 0%Z G2); unfold g1, gk; gs; cbn; lia|]. reflexivity.
-Qed.
-
-(* ---------------------------------------------------------------- wakeUpWaitLocks *)
-Lemma do_lock_rule_bound a b c : do_lock_rule a b c = true -> a < 2147483647.
-Proof.
-  unfold do_lock_rule. destruct (a =? 0) eqn:E0; [apply N.eqb_eq in E0; lia|].
-  destruct (c =? 0); [discriminate|]. destruct (65535 <=? a) eqn:E1.
-  - destruct (2147483647 <=? a) eqn:E2; [discriminate|]. apply N.leb_gt in E2. auto.
-  - apply N.leb_gt in E1. lia.
-Qed.
-
-Lemma wake_iter_ginv s xt xe k w : GInv s (gk xt xe k) -> w_key w = k ->
-  GInv (fst (fst (wake_iter s w))) (gk xt xe k).
-Proof.
-  intros G Hw. unfold wake_iter. rewrite Hw. destruct (aget (mgrs s) k) as [m|] eqn:Hm; [|exact G].
-  destruct (negb (m_waited m)); [exact G|].
-  pose proof (get_wait_lock_ginv s (gk xt xe k) k G) as P.
-  destruct (get_wait_lock s k) as [s1 wl]. destruct P as [G1 [LF [_ [_ [_ P4]]]]]; auto.
-  destruct (lf_m _ _ LF k) as [Mk _].
-  destruct (aget (mgrs s1) k) as [m1|] eqn:Hm1; [|exfalso; pose proof (proj1 Mk eq_refl); congruence].
-  destruct wl as [r|].
-  - destruct P4 as [Hin [l [Hr Ht]]].
-    destruct (negb (do_lock s1 k r)) eqn:Ed; [exact G1|]. apply negb_false_iff in Ed.
-    unfold do_lock in Ed. apply do_lock_rule_bound in Ed. rewrite (getm_some _ _ _ Hm1) in *.
-    assert (Hkey : l_key l = k).
-    { eapply (mo_key _ _ _ _ (gi_mgr _ _ G1 k m1 Hm1)); eauto. apply in_or_app. right. auto. }
-    pose proof (wake_grant_ginv s1 xt xe k r (w_conn w) l m1 G1 Hr Hkey Ht Hm1) as GG.
-    destruct (wake_grant s1 k r (w_conn w)) as [s2 ev]. cbn [fst] in *. apply GG. lia.
-  - cbn [fst].
-    apply remove_mgr_ginv; [|intros _; split; reflexivity].
-    apply updm_scalar; auto.
-Qed.
-
-Lemma run_wake_ginv fuel : forall s xt xe k w, GInv s (gk xt xe k) -> w_key w = k ->
-  GInv (fst (run_wake fuel s w)) (gk xt xe k).
-Proof.
-  induction fuel as [|f IH]; intros s xt xe k w G Hw; simpl; [exact G|].
-  pose proof (wake_iter_ginv s xt xe k w G Hw) as G1.
-  destruct (wake_iter s w) as [[s' ev] [|]]; cbn [fst] in *; [exact G1|].
-  specialize (IH s' xt xe k w G1 Hw). destruct (run_wake f s' w) as [s'' ev']. exact IH.
-Qed.
-
-Lemma finish_ginv s ev w xt xe k : GInv s (gk xt xe k) -> (forall w0, w = Some w0 -> w_key w0 = k) ->
-  GInv (fst (finish (s, ev, w))) (gk xt xe k).
-Proof.
-  intros G Hw. unfold finish. destruct w as [w0|]; [|exact G].
-  pose proof (run_wake_ginv (wake_fuel s (w_key w0)) s xt xe k w0 G (Hw w0 eq_refl)) as P.
-  destruct (run_wake (wake_fuel s (w_key w0)) s w0) as [s' ev']. exact P.
-Qed.
-
-(* ---------------------------------------------------------------- GetLockedLock *)
-Lemma find_locked_spec s items id r : find_locked s items id = Some r ->
-  In r items /\ 0 < l_locked (getl s r) /\ c_lockid (l_cmd (getl s r)) = id.
-Proof.
-  induction items as [|x t IH]; simpl; [discriminate|].
-  destruct ((0 <? l_locked (getl s x)) && (c_lockid (l_cmd (getl s x)) =? id)) eqn:E.
-  - intros H; inversion H; subst. apply andb_true_iff in E. destruct E as [E1 E2].
-    apply N.ltb_lt in E1. apply N.eqb_eq in E2. auto.
-  - intros H. destruct (IH H) as [A [B C]]. auto.
-Qed.
-
-Lemma get_locked_lock_spec s xt xe k m id r :
-  GInv s (gk xt xe k) -> aget (mgrs s) k = Some m -> get_locked_lock s m id = Some r ->
-  exists l, aget (store s) r = Some l /\ l_key l = k /\ 0 < l_locked l /\ c_lockid (l_cmd l) = id
-            /\ l_timeouted l = true /\ occ r (holders m) = 1%nat.
-Proof.
-  intros G Hm Hg.
-  destruct (gi_mgr _ _ G k m Hm) as [B1 B2 B3 B4 B5 B6 B7 B8 B9 Bb B10 Bc].
-  assert (Hlkk : lkk (gk xt xe k) k = false) by (unfold lkk, gk; gs; apply andb_false_r).
-  specialize (B7 Hlkk). specialize (B10 Hlkk).
-  assert (Hgen : In r (holders m) /\ 0 < l_locked (getl s r) /\ c_lockid (l_cmd (getl s r)) = id).
-  { unfold get_locked_lock in Hg. destruct (m_cur m) as [c|] eqn:Ec; [|discriminate].
-    destruct (c_lockid (l_cmd (getl s c)) =? id) eqn:E.
-    - inversion Hg; subst c. apply N.eqb_eq in E. split; [unfold holders, cur_list; rewrite Ec; simpl; auto|]. split; auto.
-    - destruct (m_locks m) as [q|] eqn:El; [|discriminate]. unfold hq_getlock in Hg.
-      destruct (find_locked s (hq_fast q) id) as [r1|] eqn:Ef.
-      + inversion Hg; subst r1. destruct (find_locked_spec _ _ _ _ Ef) as [X1 [X2 X3]]. split; auto.
-        unfold holders, m_hq. rewrite El. unfold hq_items. apply in_or_app. right. apply in_or_app. auto.
-      + destruct (hq_scale q) as [[items mp]|] eqn:Es; [|discriminate].
-        destruct (B10 q eq_refl items mp Es id r Hg) as [X1 [X2 X3]]. split; auto.
-        unfold holders, m_hq. rewrite El. unfold hq_items. rewrite Es. apply in_or_app. right. apply in_or_app. auto. }
-  destruct Hgen as [Hi [Hl Hid]].
-  assert (Hst : aget (store s) r <> None).
-  { apply B1. unfold phk, gk. gs. destruct (k =? k); simpl; rewrite occ_app; apply occ_In in Hi; lia. }
-  destruct (aget (store s) r) as [l|] eqn:Hr; [|congruence].
-  rewrite (getl_some _ _ _ Hr) in *.
-  assert (Hi' : In r (holders (getm s k))) by (rewrite (getm_some _ _ _ Hm); auto).
-  destruct (holder_timeouted s _ k r l G Hi' Hr) as [T K].
-  exists l. repeat split; auto.
-  pose proof (proj1 (occ_nodup _) B4 r). apply occ_In in Hi. lia.
-Qed.
-
-(* ---------------------------------------------------------------- UpdateLockedLock and re-arming of the expiry entry *)
-Definition ull_rec (s : db) (k : N) (r : ref) (c : cmd) (l : lockrec) : lockrec :=
-  let l := l <| l_cmd := c |> in
-  let l :=
-    if negb (has (c_eflag c) EF_UNLIMITED) || (c_expried c <? 65535) then
-      let st := now s in
-      let eT := expiry_deadline c st in
-      let l := l <| l_start := st |> <| l_tT := timeout_deadline c st |> <| l_eT := eT |> in
-      let l := if has (c_tflag c) TF_NO_RESET_TCC then l else l <| l_tcc := 1 |> in
-      if has (c_eflag c) EF_NO_RESET_ECC then l else l <| l_ecc := initial_ecc c eT st |>
-    else l in
-  let m := getm s k in
-  let only_holder := match m_cur m with Some cr => cr =? r | None => false end
-                     && match m_locks m with None => true | Some q => match hq_head q with None => true | Some _ => false end end in
-  if negb (l_isaof l) && only_holder then l <| l_aoftime := aoftime_of s c |> else l.
-Lemma update_locked_lock_eq s k r c : update_locked_lock s k r c = setl s r (ull_rec s k r c (getl s r)).
-Proof. reflexivity. Qed.
-
-Lemma ull_rec_fields s k r c l :
-  let l' := ull_rec s k r c l in
-  l_key l' = l_key l /\ l_cmd l' = c /\ l_locked l' = l_locked l /\ l_refc l' = l_refc l
-  /\ l_timeouted l' = l_timeouted l /\ l_long l' = l_long l /\ l_ack l' = l_ack l.
-Proof.
-  unfold ull_rec. cbv zeta.
-  destruct (negb (has (c_eflag c) EF_UNLIMITED) || (c_expried c <? 65535));
-    destruct (has (c_tflag c) TF_NO_RESET_TCC); destruct (has (c_eflag c) EF_NO_RESET_ECC);
-    match goal with |- context [if ?b then _ else _] => destruct b end; destruct l; cbn; repeat split.
-Qed.
-
-Lemma remove_long_expried_frame s r eT l : aget (store s) r = Some l ->
-  aget (store (remove_long_expried s r eT)) r
-    = Some (if match aget (elong s) (lkey eT) with Some _ => true | None => false end
-            then l <| l_long := false |> <| l_refc := dec8 (l_refc l) |> else l <| l_long := false |>)
-  /\ mgrs (remove_long_expried s r eT) = mgrs s /\ twheel (remove_long_expried s r eT) = twheel s
-  /\ tlong (remove_long_expried s r eT) = tlong s /\ ewheel (remove_long_expried s r eT) = ewheel s.
-Proof.
-  intros Hr. unfold remove_long_expried. destruct (aget (elong s) (lkey eT)) as [q|].
-  - match goal with |- context [updl ?S r ?f] => assert (H1 : aget (store S) r = Some l) by exact Hr; rewrite (updl_some S r f l H1) end.
-    rewrite store_setl, aget_aset_same. repeat split.
-  - rewrite (updl_some _ _ _ _ Hr). rewrite store_setl, aget_aset_same. repeat split.
-Qed.
-
-Lemma update_and_rearm_ginv s xt xe k r c l m :
-  GInv s (gk xt xe k) -> aget (store s) r = Some l -> l_key l = k -> aget (mgrs s) k = Some m ->
-  0 < l_locked l -> l_timeouted l = true -> occ r (holders m) = 1%nat ->
-  cmd_core c -> c_lockid c = c_lockid (l_cmd l) ->
-  GInv (fst (update_and_rearm s k r c)) (gk xt xe k).
-Proof.
-  intros G Hr Hkey Hm Hd Ht Hh Hc Hid. set (g := gk xt xe k) in *.
-  destruct (gi_rec _ _ G r l Hr) as [A1 A2 A3 A4 A5 A6 A7 A8 A9 A10 A11].
+  intros G Hc Hm Hb. set (g := gk xt xe k) in *.
+  destruct (new_lock_ginv s g k conn c m G Hm eq_refl eq_refl Hb Hc) as [Enl G1].
+  destruct (fresh_zero s g (next s) G (N.le_refl _)) as [Fn [Fte [Fph Fl]]].
+  unfold ls_tail. rewrite Enl in *. cbn [fst] in G1.
+  set (r := next s) in *. set (l0 := fresh_rec s k conn c) in *.
+  match goal with |- context [updm ?S k ?f] => set (s1 := updm S k f) in * end.
+  assert (Hm1 : exists m1, aget (mgrs s1) k = Some m1 /\ holders m1 = holders m /\ m_wq m1 = m_wq m /\ m_locked m1 = m_locked m).
+  { unfold s1, updm. cbn [mgrs]. change (mgrs (s <| store := aset (store s) r l0 |> <| next := r + 1 |>)) with (mgrs s). rewrite Hm.
+    eexists. split; [rewrite mgrs_setm, aget_aset_same; reflexivity|]. destruct m; cbn. auto. }
+  destruct Hm1 as [m1 [Hm1 [Hh1 [Hw1 Hl1]]]].
+  assert (Hr1 : aget (store s1) r = Some l0).
+  { unfold s1, updm. change (mgrs (s <| store := aset (store s) r l0 |> <| next := r + 1 |>)) with (mgrs s). rewrite Hm.
+    change (store (setm _ k _)) with (aset (store s) r l0). apply aget_aset_same. }
+  assert (Hwh : twheel s1 = twheel s /\ tlong s1 = tlong s /\ ewheel s1 = ewheel s /\ elong s1 = elong s).
+  { unfold s1, updm. change (mgrs (s <| store := aset (store s) r l0 |> <| next := r + 1 |>)) with (mgrs s). rewrite Hm. auto. }
+  destruct Hwh as [W1 [W2 [W3 W4]]].
+  assert (Hte1 : tcount s1 g r = O /\ ecount s1 g r = O).
+  { unfold tcount, ecount in *. rewrite W1, W2, W3, W4. lia. }
+  destruct Hte1 as [Ht1 He1].
+  specialize (Fl k). rewrite (getm_some _ _ _ Hm), occ_app in Fl.
+  assert (Hh0 : occ r (holders m1) = O) by (rewrite Hh1; lia).
+  assert (Hw0 : occ r (m_wq m1) = O) by (rewrite Hw1; lia).
+  cbv zeta.
   destruct Hc as [C1 [C2 [C3 C4]]].
-  unfold update_and_rearm. rewrite (getl_some _ _ _ Hr). cbv zeta. rewrite update_locked_lock_eq, (getl_some _ _ _ Hr).
-  set (l1 := ull_rec s k r c l).
-  destruct (ull_rec_fields s k r c l) as [F1 [F2 [F3 [F4 [F5 [F6 F7]]]]]]. fold l1 in F1, F2, F3, F4, F5, F6, F7.
-  assert (Hsr : same_rel l l1).
-  { unfold same_rel. rewrite F1, F2, F3, F4, F5, F6, F7. repeat split; auto. }
-  assert (Hr1 : aget (store (setl s r l1)) r = Some l1) by (rewrite store_setl, aget_aset_same; auto).
-  destruct (l_long l) eqn:Elong.
-  - (* long table entry *)
-    assert (Hb : occ r (wheel_get (elong s) (lkey (l_eT l))) = 1%nat) by (apply A8; auto).
-    pose proof (ginv_pend_add s g r G) as G0.
-    assert (G1 : GInv (setl s r l1) (g <| g_pend := [r] |>)).
-    { apply (setl_irrel s _ r l l1 G0 Hr Hsr). intros _ Hpe. unfold g, gk in Hpe. gs. rewrite occ_cons_eq in Hpe. discriminate. }
-    rewrite C3. cbn [negb].
-    rewrite (getl_some _ _ _ Hr1).
-    destruct (negb (l_eT l =? l_eT l1)%Z) eqn:Ene.
-    + (* deadline moved: take the entry out and re-arm *)
-      destruct (remove_long_expried_frame (setl s r l1) r (l_eT l) l1 Hr1) as [Fr [Fm [Ft1 [Ft2 Fe]]]].
-      change (elong (setl s r l1)) with (elong s) in Fr.
-      destruct (wheel_get_some (elong s) (lkey (l_eT l)) r) as [q [Hq1 Hq2]]; [lia|]. rewrite Hq1 in Fr.
-      assert (G2 : GInv (remove_long_expried (setl s r l1) r (l_eT l)) (g <| g_pend := [r] |>)).
-      { apply (remove_long_expried_ginv _ _ r l1 (l_eT l) G1 Hr1); unfold g, gk; gs; auto.
-        - rewrite occ_cons_eq. lia.
-        - intros _. rewrite F1, Hkey. change (getm (setl s r l1) k) with (getm s k). rewrite (getm_some _ _ _ Hm). auto. }
-      set (s2 := remove_long_expried (setl s r l1) r (l_eT l)) in *.
-      set (l2 := l1 <| l_long := false |> <| l_refc := dec8 (l_refc l1) |>) in *.
-      assert (G3 : GInv s2 g).
-      { eapply ginv_geq; [apply (ginv_pend_drop _ _ r [] G2); gs; auto|reflexivity].
-        intros l0 H0 Hl0. rewrite Fr in H0. inversion H0; subst l0. discriminate. }
-      assert (He2 : ecount s2 g r = O).
-      { pose proof (ro_refc _ _ _ _ (gi_rec _ _ G3 r l2 Fr)) as R2.
-        destruct (rec_counts s g r l G Hr) as [[X1 [X2 [X3 X4]]] _].
-        pose proof (ro_ec _ _ _ _ (gi_rec _ _ G3 r l2 Fr)) as E2.
-        pose proof (occ_wheel_get_le r (elong s) (lkey (l_eT l))) as W.
-        subst g. unfold gk in *. gs. simpl occ in *.
-        rewrite Hkey, (getm_some _ _ _ Hm) in *.
- Show. 
+  destruct ((negb waited || has (c_tflag c) TF_PRIORITY && check_wait_priority s1 k c) && do_lock s1 k r) eqn:Eadm.
+  - (* admitted *)
+    apply andb_true_iff in Eadm. destruct Eadm as [_ Edl]. unfold do_lock in Edl. apply do_lock_rule_bound in Edl.
+    rewrite (getm_some _ _ _ Hm1) in Edl.
+    assert (Hwk : forall w, (if m_waited (getm s1 k) then Some (mkWake k (Some conn)) else None) = Some w -> w_key w = k).
+    { intros w. destruct (m_waited (getm s1 k)); intros H; inversion H; reflexivity. }
+    destruct (0 <? c_expried c) eqn:Eexp.
+    + (* a hold *)
+      rewrite C1. cbn [andb].
+      assert (GG : GInv (grant_core s1 k r) (g <| g_cl := (g_cl g + 1)%Z |>)).
+      { apply (grant_core_ginv s1 g k r l0 m1 G1); unfold g, gk; gs; auto. lia. }
+      unfold grant_core in GG. cbv zeta in GG.
+      destruct (has_data_flag c); rewrite ?(process_data_core _ _ _ _ _ C4); cbv iota beta; rewrite C3;
+        destruct (add_expried _ k r) as [s4 aev]; cbn [fst] in GG; (split; [|exact Hwk]); cbn [fst];
+        (eapply ginv_geq; [apply (updc_ginv _ _ _ 0%Z 0%Z GG); unfold g, gk; gs; cbn; lia|reflexivity]).
+    + (* Expried = 0: no hold, the record is freed at once *)
+      assert (Hfree : forall s2, GInv s2 g -> sim s1 s2 ->
+                res_ok xt xe k (bump (fun n => n <| n_lock := (n_lock n + 1)%Z |>) (remove_mgr_if_unref (free_lock s2 r) k), [], None)).
+      { intros s2 G2 S2. destruct (sim_stored s1 s2 r l0 S2 Hr1) as [l2 [Hr2 Hl2]].
+        assert (Hrefc : l_refc l2 = 0) by (rewrite Hl2; reflexivity).
+        assert (Hto : liveb l2 = 0%Z) by (rewrite Hl2; reflexivity).
+        pose proof (free_lock_ginv s2 g r l2 G2 Hr2 Hrefc eq_refl) as G3. rewrite Hto in G3.
+        split; [|intros w H; discriminate]. cbn [fst].
+        eapply ginv_geq; [eapply updc_ginv with (cl' := 0%Z) (cw' := 0%Z); [apply remove_mgr_ginv; [exact G3|intros _; split; reflexivity]|..]; unfold g, gk; gs; cbn; lia|reflexivity]. }
+      destruct (has_data_flag c).
+      * rewrite (process_data_core _ _ _ _ _ C4). cbv iota beta.
+        destruct (_ && _).
+        -- destruct (push_lock_aof_ok s1 g k r 0 G1) as [G2 S2]. destruct (push_lock_aof s1 k r 0) as [s2 aev]. cbn [fst] in *.
+           destruct (Hfree s2 G2 S2) as [X _]. split; [exact X|exact Hwk].
+        -- destruct (Hfree s1 G1 (sim_refl s1)) as [X _]. split; [exact X|exact Hwk].
+      * destruct (Hfree s1 G1 (sim_refl s1)) as [X _]. split; [exact X|exact Hwk].
+  - destruct ((0 <? c_timeout c) && (negb (has (c_tflag c) TF_TIMEOUT_WHEN_DATA) || match data_of s1 k with None => true | Some _ => false end)).
+    + (* queued *)
+      rewrite C2.
+      destruct (add_wait_lock_ginv s1 g k r l0 m1 G1) as [G2 [[n Hr2] Win Whold LF]]; unfold g, gk; gs; auto.
+      set (s2 := add_wait_lock s1 k r) in *.
+      set (l2 := l0 <| l_refc := n |>) in *.
+      assert (Hte2 : tcount s2 g r = O /\ ecount s2 g r = O).
+      { unfold tcount, ecount in *. rewrite (lf_tw _ _ LF), (lf_tl _ _ LF), (lf_ew _ _ LF), (lf_el _ _ LF). lia. }
+      destruct Hte2 as [Ht2 He2].
+      pose proof (ginv_borrow_t s2 g r l2 G2 Hr2 Ht2) as G3.
+      assert (G4 : GInv (add_timeout s2 r) (g <| g_owe := [r] |> <| g_cw := 1%Z |>)).
+      { eapply ginv_geq; [eapply (add_timeout_ginv s2 _ r _ l2 G3); unfold g, gk; gs; auto; try reflexivity|].
+        - change (l_key l2) with k. rewrite Whold, (getm_some _ _ _ Hm1). exact Hh0.
+        - reflexivity. }
+      destruct (aget (store (add_timeout s2 r)) r) as [l3|] eqn:Hr3; [|apply add_timeout_stored in Hr3; congruence].
+      split; [|intros w H; discriminate]. cbn [fst].
+      eapply ginv_geq; [eapply updc_ginv with (cl' := 0%Z) (cw' := 0%Z); [apply (updl_refc_owe _ _ r [] l3 G4); gs; auto|..]; unfold g, gk; gs; cbn; lia|reflexivity].
+    + (* refused at once *)
+      pose proof (free_lock_ginv s1 g r l0 G1 Hr1 eq_refl eq_refl) as G3.
+      split; [|intros w H; discriminate]. cbn [fst].
+      eapply ginv_geq; [apply remove_mgr_ginv; [exact G3|intros _; split; reflexivity]|reflexivity].
+Qed.
+
+(* ---------------------------------------------------------------- the key is held: show / update / re-entrant branches *)
+Lemma mlocked_bound s xt xe k m : GInv s (gk xt xe k) -> aget (mgrs s) k = Some m -> next s < MAXREC ->
+  m_locked m + 1 < 4294967296.
+Proof.
+  intros G Hm Hb. destruct (gi_mgr _ _ G k m Hm) as [B1 B2 B3 B4 B5 B6 B7 B8 B9 Bb B10 Bc].
+  assert (Hd : forall r, l_locked (getl s r) <= 255).
+  { intros r. destruct (aget (store s) r) as [l|] eqn:Hr.
+    - rewrite (getl_some _ _ _ Hr). apply (ro_depth _ _ _ _ (gi_rec _ _ G r l Hr)).
+    - rewrite (getl_none _ _ Hr). simpl. lia. }
+  pose proof (sumdepth_bound s (holders m) Hd) as S1.
+  assert (S2 : (length (holders m) <= length (store s))%nat).
+  { apply nodup_stored_length; [apply (gi_wf_s _ _ G)|exact B4|].
+    intros r Hi. apply B1. unfold phk, gk. gs. destruct (k =? k); simpl; rewrite occ_app; apply occ_In in Hi; lia. }
+  pose proof (gi_len _ _ G) as S3. unfold dlk, gk in B6. gs. destruct (k =? k) in B6; unfold MAXREC in Hb; lia.
+Qed.
+
+Lemma cmd_core_lockid c x : cmd_core c -> cmd_core (c <| c_lockid := x |>).
+Proof. unfold cmd_core. destruct c; cbn. auto. Qed.
+
+Lemma ls_update_ok s xt xe conn c1 k m r l ldata :
+  GInv s (gk xt xe k) -> aget (mgrs s) k = Some m -> cmd_core c1 ->
+  aget (store s) r = Some l -> l_key l = k -> 0 < l_locked l -> c_lockid (l_cmd l) = c_lockid c1 ->
+  l_timeouted l = true -> occ r (holders m) = 1%nat ->
+  exists res, ls_update s conn c1 k m r l ldata = (Some res, c1, m_waited m) /\ res_ok xt xe k res.
+Proof.
+  intros G Hm Hc1 Hr Hkey Hd Hid Ht Hh. set (g := gk xt xe k) in *.
+  pose proof Hc1 as [C1 [C2 [C3 C4]]].
+  assert (Hupd : forall s2 aev, GInv s2 g ->
+     exists res,
+       (let s2 := updl s2 r (fun l => l <| l_conn := conn |>) in
+        let from_aof := has (c_flag c1) LOCK_FLAG_FROM_AOF in
+        if negb from_aof && has (c_tflag c1) TF_REQUIRE_ACKED && negb (l_aoftime (getl s2 r) =? 255) then
+          let '(s3, e3) := push_lock_aof s2 k r AOF_FLAG_UPDATED in
+          let s3 := updl s3 r (fun l => l <| l_refc := add8 (l_refc l) 1 |>) in
+          (Some (s3, @nil event ++ aev ++ e3, None), c1, m_waited m)
+        else
+          let '(s3, e3) := if negb from_aof && l_isaof (getl s2 r) then push_lock_aof s2 k r AOF_FLAG_UPDATED else (s2, []) in
+          (Some (s3, [] ++ aev ++ e3 ++ [reply conn c1 R_LOCKED_ERROR (m_locked (getm s3 k)) (l_locked (getl s3 r)) ldata],
+                 Some (mkWake k (Some conn))), c1, m_waited m)) = (Some res, c1, m_waited m) /\ res_ok xt xe k res).
+  { intros s2 aev G2. cbv zeta. rewrite C1, andb_false_r. cbn [andb].
+    assert (G3 : GInv (updl s2 r (fun l => l <| l_conn := conn |>)) g).
+    { apply updl_irrel; auto. intros l0 _. split; [unfold same_rel; destruct l0; cbn; intuition|destruct l0; cbn; auto]. }
+    destruct (negb (has (c_flag c1) LOCK_FLAG_FROM_AOF) && l_isaof (getl (updl s2 r (fun l => l <| l_conn := conn |>)) r)).
+    - destruct (push_lock_aof_ok _ g k r AOF_FLAG_UPDATED G3) as [G4 _].
+      destruct (push_lock_aof _ k r AOF_FLAG_UPDATED) as [s3 e3]. eexists. split; [reflexivity|].
+      split; [exact G4|intros w0 H; inversion H; reflexivity].
+    - eexists. split; [reflexivity|]. split; [exact G3|intros w0 H; inversion H; reflexivity]. }
+  pose proof (update_and_rearm_ginv s xt xe k 0%Z 0%Z r c1 l m G Hr Hkey Hm Hd Ht Hh Hc1 (eq_sym Hid)) as GU.
+  unfold ls_update.
+  destruct (has_data_flag c1); rewrite ?(process_data_core _ _ _ _ _ C4); cbv iota beta;
+    match goal with |- context [if ?b then (Some (s, _, None), c1, m_waited m) else _] => destruct b end;
+    try (eexists; split; [reflexivity|apply res_ok_same; auto]).
+  all: destruct (update_and_rearm s k r c1) as [s2 aev]; cbn [fst] in GU; apply (Hupd s2 aev GU).
+Qed.
+
+Lemma ls_relock_ok s xt xe conn c1 k m r l ldata :
+  GInv s (gk xt xe k) -> aget (mgrs s) k = Some m -> cmd_core c1 -> next s < MAXREC ->
+  aget (store s) r = Some l -> l_key l = k -> 0 < l_locked l -> c_lockid (l_cmd l) = c_lockid c1 ->
+  l_timeouted l = true -> occ r (holders m) = 1%nat -> l_locked l < 255 ->
+  exists res, ls_relock s conn c1 k m r l ldata = (Some res, c1, m_waited m) /\ res_ok xt xe k res.
+Proof.
+  intros G Hm Hc1 Hb Hr Hkey Hd Hid Ht Hh Hlt. set (g := gk xt xe k) in *.
+  pose proof Hc1 as [C1 [C2 [C3 C4]]].
+  unfold ls_relock. destruct (c_expried c1 =? 0).
+  { eexists. split; [reflexivity|apply res_ok_same; auto]. }
+  cbv zeta.
+  pose proof (mlocked_bound s xt xe k m G Hm Hb) as Hmb.
+  destruct (gi_rec _ _ G r l Hr) as [A1 A2 A3 A4 A5 A6 A7 A8 A9 A10 A11].
+  rewrite (updm_some _ _ _ _ Hm).
+  set (m1 := m <| m_locked := add32 (m_locked m) 1 |>).
+  assert (Hl1 : m_locked m1 = m_locked m + 1) by (unfold m1; cbn; apply add32_succ; auto).
+  assert (G1 : GInv (setm s k m1) (g <| g_dl := (-1)%Z |> <| g_cl := 1%Z |>)).
+  { eapply ginv_geq; [apply (setm_scalar s g k m m1 G Hm); try (destruct m; reflexivity); [lia|right; reflexivity]|].
+    rewrite Hl1. unfold g, gk. gs.
+    match goal with |- _ = ?g0 <| g_dl := ?e1 |> <| g_cl := ?e2 |> => replace e1 with (-1)%Z by lia; replace e2 with 1%Z by lia end. reflexivity. }
+  set (s1 := setm s k m1) in *.
+  assert (Hr1 : aget (store s1) r = Some l) by exact Hr.
+  assert (Hm1 : aget (mgrs s1) k = Some m1) by (unfold s1; rewrite mgrs_setm, aget_aset_same; auto).
+  assert (Hh1 : holders m1 = holders m) by (destruct m; reflexivity).
+  rewrite (updl_some _ _ _ _ Hr1).
+  set (l2 := l <| l_locked := add8 (l_locked l) 1 |>).
+  assert (Hd2 : l_locked l2 = l_locked l + 1) by (unfold l2; cbn; apply add8_succ; lia).
+  assert (G2 : GInv (setl s1 r l2) (gkc xt xe k 1 0)).
+  { eapply ginv_geq; [apply (setl_depth s1 _ r l l2 G1 Hr1); unfold g, gk; gs; auto; try lia|].
+    - intros _ _. rewrite Hkey. unfold s1. rewrite getm_setm_same, Hh1. exact Hh.
+    - simpl. tauto.
+    - rewrite Hkey. unfold s1 at 1. rewrite getm_setm_same, Hh1, Hh, Hd2. unfold g, gk, gkc. gs.
+      match goal with |- _ = ?g0 <| g_dl := ?e1 |> => replace e1 with 0%Z by lia end. reflexivity. }
+  set (s2 := setl s1 r l2) in *.
+  assert (Hr2 : aget (store s2) r = Some l2) by (unfold s2; rewrite store_setl, aget_aset_same; auto).
+  assert (Hm2 : aget (mgrs s2) k = Some m1) by exact Hm1.
+  assert (GU : GInv (fst (update_and_rearm s2 k r c1)) (gkc xt xe k 1 0)).
+{ apply (update_and_rearm_ginv s2 xt xe k 1%Z 0%Z r c1 l2 m1 G2 Hr2); auto; try lia. Show. 
